@@ -45,7 +45,7 @@ def _gibbs_chain(vc, N):
     return chain, d, Sf, Pf
 
 
-@contract("C14", "gibbs_readouts", native=False)
+@contract("C14", "gibbs_readouts", native=False, replay_with="readouts_native")
 def gibbs_readouts(vc):
     N, burn, thin = _args(vc)
     chain, d, Sf, Pf = _gibbs_chain(vc, N)
@@ -65,7 +65,7 @@ def gibbs_readouts(vc):
 
 
 # ---- Hamiltonian ---------------------------------------------------------------------------------------------
-@contract("C14", "hmc_readouts", native=False)
+@contract("C14", "hmc_readouts", native=False, replay_with="readouts_native")
 def hmc_readouts(vc):
     N, burn, thin = _args(vc)
     d = vc.int("d", lo=1)
@@ -91,7 +91,7 @@ def hmc_readouts(vc):
 
 
 # ---- Ensemble ------------------------------------------------------------------------------------------------
-@contract("C14", "ensemble_readouts", native=False)
+@contract("C14", "ensemble_readouts", native=False, replay_with="readouts_native")
 def ensemble_readouts(vc):
     N, burn, thin = _args(vc)
     d = vc.int("d", lo=1)
@@ -129,7 +129,7 @@ def _cutoff(vc, L, f):
     return vc.to_int(x)
 
 
-@contract("C14", "get_interval_all", native=False)
+@contract("C14", "get_interval_all", native=False, replay_with="readouts_native")
 def get_interval_all(vc):
     """no count requested: every row of the top fraction, with its own log-probability"""
     N, burn, thin, d, X, P, chain, f = _interval_setup(vc)
@@ -151,7 +151,7 @@ def get_interval_all(vc):
                       lambda r, c: S.And(out_p[r] == P[row(r)], out_s[r, c] == X[row(r), c]))
 
 
-@contract("C14", "get_interval_count", native=False)
+@contract("C14", "get_interval_count", native=False, replay_with="readouts_native")
 def get_interval_count(vc):
     """a count is requested: at most that many rows, each one a row of the top fraction with its own
     log-probability, as a two-dimensional array"""
